@@ -126,6 +126,15 @@ def gen_graph(rng, cyc=False, rich=True, nmin=3, nmax=7):
             beta[n] = rng.choice(vs)
     g = {"names": names, "pool": pool, "pathvars": pathvars, "space_root": space_root,
          "decls": decls, "tags": {"current": cur, "beta": beta}, "cyc": cyc, "nstacks": 1}
+    if rich and rng.random() < 0.08:
+        # a "meta" product: every version declared without a directory (PROD_DIR = none); its tables hold literals only
+        n0 = rng.choice(names)
+        for d in decls:
+            if d["name"] == n0:
+                d["sub"] = None
+                lit = lambda a: dict(a, own=False, val="/meta/%s/%s%s" % (n0, d["ver"], a["val"]), more=[]) if a.get("a") in ("prepend", "set") else a
+                d["table"] = [({"if": [lit(x) for x in seg["if"]], "else": [lit(x) for x in seg["else"]]} if "if" in seg else lit(seg))
+                              for seg in d["table"]]
     if rich and rng.random() < 0.3:
         add_second_stack(rng, g)
     return g
@@ -208,7 +217,7 @@ def gen_prior(rng, g, mode=None):
         env["LIBP"] = "/opt/lib"
     elif mode == "preset":
         env[d["name"].upper() + "_X"] = "old value"
-    elif mode == "contained":
+    elif mode == "contained" and d["sub"] is not None:
         env["PATH"] = "/usr/bin:%s/%s/bin:/bin" % (ROOTS[d.get("stack", 0)], d["sub"])
     elif mode == "stale":
         # a record eups wrote for a version that has been undeclared since (findSetupProduct finds nothing)
@@ -373,6 +382,8 @@ class G:
 
     def dir(self, n, v):
         d = self.decl[(n, v)]
+        if d["sub"] is None:
+            return "none"               # declared without a directory (PROD_DIR = none)
         return ROOTS[d.get("stack", 0)] + "/" + d["sub"]
 
     def versions(self, n):
@@ -399,6 +410,8 @@ class G:
 
     def owner(self, s):
         for (n, v), d in self.decl.items():
+            if d["sub"] is None:
+                continue
             dd = ROOTS[d.get("stack", 0)] + "/" + d["sub"]
             if s == dd or s.startswith(dd + "/"):
                 return (n, v)
@@ -491,11 +504,20 @@ def install(g, root):
         f.write(STARTUP)
     for d in g["decls"]:
         S = Ss[d.get("stack", 0)]
+        os.makedirs(os.path.join(S, "ups_db", d["name"]), exist_ok=True)
+        if d["sub"] is None:            # no directory: PROD_DIR = none, the table lives beside the database
+            os.makedirs(os.path.join(S, "tables"), exist_ok=True)
+            tf = os.path.join(S, "tables", "%s-%s.table" % (d["name"], d["ver"]))
+            with open(tf, "w") as f:
+                f.write(table_text(d["table"], g["pathvars"]))
+            with open(os.path.join(S, "ups_db", d["name"], d["ver"] + ".version"), "w") as f:
+                f.write((VERSION_FILE % {"n": d["name"], "v": d["ver"], "sub": "none"}).replace(
+                    "TABLE_FILE = %s.table" % d["name"], "TABLE_FILE = %s" % tf))
+            continue
         pd = os.path.join(S, d["sub"])
         os.makedirs(os.path.join(pd, "ups"), exist_ok=True)
         with open(os.path.join(pd, "ups", d["name"] + ".table"), "w") as f:
             f.write(table_text(d["table"], g["pathvars"]))
-        os.makedirs(os.path.join(S, "ups_db", d["name"]), exist_ok=True)
         with open(os.path.join(S, "ups_db", d["name"], d["ver"] + ".version"), "w") as f:
             f.write(VERSION_FILE % {"n": d["name"], "v": d["ver"], "sub": d["sub"]})
     for k, S in enumerate(Ss):
